@@ -127,7 +127,7 @@ Section WithRx.
   Qed.
 
   (* a project without endpoints (or a project name that names no application): nothing is compiled, nothing panics *)
-  Theorem empty_project_never_panics m vi k fuel c : gen_integrations rx m vi k fuel c [] = COk [].
+  Theorem empty_project_loop_is_empty m vi k fuel c : cmd_views rx m vi k fuel c [] = COk [].
   Proof. reflexivity. Qed.
 
   (* a format that passes FormatParser.Check and a filter that compiles: no panic, for every project *)
@@ -213,11 +213,11 @@ Section WithRx.
 
   (* SOUNDNESS of the result map: every diagram is the diagram of an endpoint of the project whose output name is
      the key and which passes the filter *)
-  Theorem gen_integrations_sound m vi k fuel c eps r out x :
-    gen_integrations rx m vi k fuel c eps = COk r -> sassoc out r = Some x ->
+  Theorem cmd_views_sound m vi k fuel c eps r out x :
+    cmd_views rx m vi k fuel c eps = COk r -> sassoc out r = Some x ->
     exists p, In p eps /\ named c p out /\ filter_pass rx c out = Some true /\ x = render_ep m vi k fuel c p.
   Proof.
-    unfold gen_integrations. destruct (name_views rx c eps) as [l|] eqn:En; [|discriminate]. intros H; injection H as <-.
+    unfold cmd_views. destruct (name_views rx c eps) as [l|] eqn:En; [|discriminate]. intros H; injection H as <-.
     destruct (name_views_inv c eps l En) as [Hm Hall].
     set (G := generate_integrations m vi k (eff_exclude c) fuel (pviews_of c l)).
     assert (HG : forall kv, In kv G -> exists o, In o (outs_of l) /\ fst kv = idx_of o (outs_of l)).
@@ -244,13 +244,13 @@ Section WithRx.
 
   (* COMPLETENESS of the result map: an endpoint that passes the filter and shares its output name with no other
      endpoint that passes has its own diagram under that name - no view is dropped because of another *)
-  Theorem gen_integrations_own m vi k fuel c eps l r p out :
-    name_views rx c eps = COk l -> gen_integrations rx m vi k fuel c eps = COk r ->
+  Theorem cmd_views_own m vi k fuel c eps l r p out :
+    name_views rx c eps = COk l -> cmd_views rx m vi k fuel c eps = COk r ->
     In (p, out, true) l ->
     (forall p', In (p', out, true) l -> render_ep m vi k fuel c p' = render_ep m vi k fuel c p) ->
     sassoc out r = Some (render_ep m vi k fuel c p).
   Proof.
-    intros En. unfold gen_integrations. rewrite En. intros H; injection H as <-. intros Hin Huniq.
+    intros En. unfold cmd_views. rewrite En. intros H; injection H as <-. intros Hin Huniq.
     set (G := generate_integrations m vi k (eff_exclude c) fuel (pviews_of c l)).
     assert (HG : forall kv, In kv G -> exists o, In o (outs_of l) /\ fst kv = idx_of o (outs_of l)).
     { apply (gen_map_keys _ (fun n => exists o, In o (outs_of l) /\ n = idx_of o (outs_of l))); [intros ? []|apply pviews_keys]. }
@@ -319,10 +319,10 @@ Qed.
 
 (* with the default --output and no --filter every endpoint of the project has its own diagram under
    <endpoint name>.png: the diagram it gets alone *)
-Theorem default_output_own_diagram rx m vi k fuel c eps :
+Theorem default_output_own_diagram_views rx m vi k fuel c eps :
   c_output c = default_output -> c_filter c = EmptyString ->
   NoDup (map pe_name eps) -> (forall p, In p eps -> no_newline (pe_name p) = true) ->
-  exists r, gen_integrations rx m vi k fuel c eps = COk r /\
+  exists r, cmd_views rx m vi k fuel c eps = COk r /\
             forall p, In p eps -> sassoc (pe_name p ++ ".png")%string r = Some (render_ep m vi k fuel c p).
 Proof.
   intros Ho Hf Hnd Hnl.
@@ -332,9 +332,9 @@ Proof.
     rewrite Ho, default_output_name by (apply Hn; left; reflexivity).
     unfold filter_pass. rewrite Hf. cbn [String.eqb]. rewrite IH; [reflexivity|]. intros q Hq. apply Hn. right. exact Hq. }
   specialize (Hl eps Hnl).
-  destruct (gen_integrations rx m vi k fuel c eps) as [r|] eqn:Eg; [|unfold gen_integrations in Eg; rewrite Hl in Eg; discriminate].
+  destruct (cmd_views rx m vi k fuel c eps) as [r|] eqn:Eg; [|unfold cmd_views in Eg; rewrite Hl in Eg; discriminate].
   exists r. split; [reflexivity|]. intros p Hp.
-  eapply gen_integrations_own; [exact Hl|exact Eg| |].
+  eapply cmd_views_own; [exact Hl|exact Eg| |].
   - apply in_map_iff. exists p. split; [reflexivity|exact Hp].
   - intros p' Hp'. apply in_map_iff in Hp'. destruct Hp' as (q & Hq & Hqin). injection Hq as -> Hname.
     apply app_inj_r in Hname.
@@ -352,10 +352,10 @@ Definition one_ep : proj_ep :=
      pe_view := VPlain; pe_di := true; pe_rb := false |}.
 Definition cli0 (o f:string) : cli :=
   {| c_output := o; c_project := "Project"; c_proj_id := 9%N; c_filter := f; c_exclude := []; c_clustered := false; c_epa := false |}.
-Theorem cmd_no_panic_refuted :
-  gen_integrations rx_none [] {| names := []; mixins := []; app_r := []; ep_r := []; pubsub := [] |} true 1 (cli0 "%(epname" "") [one_ep]
+Theorem views_no_panic_refuted :
+  cmd_views rx_none [] {| names := []; mixins := []; app_r := []; ep_r := []; pubsub := [] |} true 1 (cli0 "%(epname" "") [one_ep]
     = CPanicked (PFormat UnclosedExpansion) /\
-  gen_integrations rx_none [] {| names := []; mixins := []; app_r := []; ep_r := []; pubsub := [] |} true 1 (cli0 "%(epname).png" "(") [one_ep]
+  cmd_views rx_none [] {| names := []; mixins := []; app_r := []; ep_r := []; pubsub := [] |} true 1 (cli0 "%(epname).png" "(") [one_ep]
     = CPanicked PFilter.
 Proof. split; vm_compute; reflexivity. Qed.
 
@@ -366,7 +366,7 @@ Example default_output_nonvacuous :
                          pe_view := VEpa; pe_di := true; pe_rb := false |}] in
   NoDup (map pe_name eps) /\ (forall p, In p eps -> no_newline (pe_name p) = true) /\
   format_ok rx_none default_output = true /\
-  match gen_integrations rx_none [] {| names := []; mixins := []; app_r := []; ep_r := []; pubsub := [] |} true 1 (cli0 default_output "") eps with
+  match cmd_views rx_none [] {| names := []; mixins := []; app_r := []; ep_r := []; pubsub := [] |} true 1 (cli0 default_output "") eps with
   | COk r => map fst r = ["V1.png"; "V2.png"]
   | _ => False
   end.
@@ -375,6 +375,75 @@ Proof.
   - repeat constructor; cbn; intuition discriminate.
   - intros p [<-|[<-|[]]]; reflexivity.
 Qed.
+
+(* ===================== the whole of GenerateIntegrations: the format check of 8952ebf, then the loop ============ *)
+Definition wf_formats (rx:string -> option (string -> bool)) (pf:pformats) : bool := forallb (fmt_checks rx) (formats_of pf).
+Lemma fmt_checks_is_check rx self : fmt_checks rx self = format_ok rx self.
+Proof. reflexivity. Qed.
+
+Lemma gen_integrations_ran rx m vi k fuel c pf eps x :
+  gen_integrations rx m vi k fuel c pf eps = GRan x -> wf_formats rx pf = true /\ x = cmd_views rx m vi k fuel c eps.
+Proof. unfold gen_integrations, wf_formats. destruct (forallb (fmt_checks rx) (formats_of pf)); [intros [= <-]; auto|discriminate]. Qed.
+
+(* a malformed appfmt / epfmt / title of the project application (or -t): an error, for every command line and every
+   project - never a panic, and nothing is generated *)
+Theorem malformed_project_format_is_error rx m vi k fuel c pf eps :
+  wf_formats rx pf = false -> gen_integrations rx m vi k fuel c pf eps = GFormatError.
+Proof. unfold gen_integrations, wf_formats. intros ->. reflexivity. Qed.
+(* well-formed ones change nothing *)
+Theorem wellformed_project_formats rx m vi k fuel c pf eps :
+  wf_formats rx pf = true -> gen_integrations rx m vi k fuel c pf eps = GRan (cmd_views rx m vi k fuel c eps).
+Proof. unfold gen_integrations, wf_formats. intros ->. reflexivity. Qed.
+(* what is tried is what the views use: every format the views read passes Check, hence (Seq/FmtProps) never panics *)
+Theorem checked_formats_never_panic rx m vi k fuel c pf eps x f A :
+  gen_integrations rx m vi k fuel c pf eps = GRan x -> In f (formats_of pf) -> exists l, parse rx f A = POk l.
+Proof.
+  intros H Hin. destruct (gen_integrations_ran _ _ _ _ _ _ _ _ _ H) as [Hw _]. unfold wf_formats in Hw.
+  rewrite forallb_forall in Hw. apply fmt_checked_never_panics. rewrite <- fmt_checks_is_check. apply Hw. exact Hin.
+Qed.
+
+Theorem gen_integrations_sound rx m vi k fuel c pf eps r out x :
+  gen_integrations rx m vi k fuel c pf eps = GRan (COk r) -> sassoc out r = Some x ->
+  exists p, In p eps /\ named rx c p out /\ filter_pass rx c out = Some true /\ x = render_ep m vi k fuel c p.
+Proof. intros H. destruct (gen_integrations_ran _ _ _ _ _ _ _ _ _ H) as [_ E]. apply cmd_views_sound. symmetry. exact E. Qed.
+Theorem gen_integrations_own rx m vi k fuel c pf eps l r p out :
+  name_views rx c eps = COk l -> gen_integrations rx m vi k fuel c pf eps = GRan (COk r) ->
+  In (p, out, true) l ->
+  (forall p', In (p', out, true) l -> render_ep m vi k fuel c p' = render_ep m vi k fuel c p) ->
+  sassoc out r = Some (render_ep m vi k fuel c p).
+Proof. intros En H. destruct (gen_integrations_ran _ _ _ _ _ _ _ _ _ H) as [_ E]. eapply cmd_views_own; [exact En|symmetry; exact E]. Qed.
+Theorem default_output_own_diagram rx m vi k fuel c pf eps :
+  wf_formats rx pf = true ->
+  c_output c = default_output -> c_filter c = EmptyString ->
+  NoDup (map pe_name eps) -> (forall p, In p eps -> no_newline (pe_name p) = true) ->
+  exists r, gen_integrations rx m vi k fuel c pf eps = GRan (COk r) /\
+            forall p, In p eps -> sassoc (pe_name p ++ ".png")%string r = Some (render_ep m vi k fuel c p).
+Proof.
+  intros Hw Ho Hf Hnd Hnl. destruct (default_output_own_diagram_views rx m vi k fuel c eps Ho Hf Hnd Hnl) as (r & Hr & Hall).
+  exists r. split; [rewrite wellformed_project_formats by exact Hw; rewrite Hr; reflexivity|exact Hall].
+Qed.
+(* a project without endpoints (or a project name that names no application): nothing is expanded or compiled - an
+   error if a format is malformed, the empty result otherwise, never a panic *)
+Theorem empty_project_never_panics rx m vi k fuel c pf :
+  gen_integrations rx m vi k fuel c pf [] = (if wf_formats rx pf then GRan (COk []) else GFormatError).
+Proof. unfold gen_integrations, wf_formats. destruct (forallb (fmt_checks rx) (formats_of pf)); reflexivity. Qed.
+
+Definition pf0 : pformats := {| pf_appfmt := ""; pf_epfmt := ""; pf_title_attr := ""; pf_title_cli := "" |}.
+(* REFUTED in general: well-formed project formats do not save a malformed --output / --filter *)
+Theorem cmd_no_panic_refuted :
+  gen_integrations rx_none [] {| names := []; mixins := []; app_r := []; ep_r := []; pubsub := [] |} true 1 (cli0 "%(epname" "") pf0 [one_ep]
+    = GRan (CPanicked (PFormat UnclosedExpansion)) /\
+  gen_integrations rx_none [] {| names := []; mixins := []; app_r := []; ep_r := []; pubsub := [] |} true 1 (cli0 "%(epname).png" "(") pf0 [one_ep]
+    = GRan (CPanicked PFilter).
+Proof. split; vm_compute; reflexivity. Qed.
+(* ... whereas a malformed format of the project application comes first and is an error, even with both malformed *)
+Example format_error_comes_first :
+  wf_formats rx_none pf0 = true /\
+  gen_integrations rx_none [] {| names := []; mixins := []; app_r := []; ep_r := []; pubsub := [] |} true 1 (cli0 "%(epname" "(")
+    {| pf_appfmt := "%("; pf_epfmt := ""; pf_title_attr := ""; pf_title_cli := "" |} [one_ep] = GFormatError /\
+  gen_integrations rx_none [] {| names := []; mixins := []; app_r := []; ep_r := []; pubsub := [] |} true 1 (cli0 "%(epname).png" "")
+    {| pf_appfmt := ""; pf_epfmt := ""; pf_title_attr := ""; pf_title_cli := "%(epname" |} [] = GFormatError.
+Proof. repeat split; vm_compute; reflexivity. Qed.
 
 (* ===================== the flags reach every view ===================== *)
 Local Open Scope N_scope.
